@@ -111,7 +111,7 @@ CLAIMED = {
  "C13": dict(
   level="other",
   technique="static analysis: numeric abstract interpretation of (*TransportLayerCC).Unmarshal with read-extent and wrap-around obligations, plus SSA def-use rules",
-  text="Decides structural clauses that are necessary for the property, for every input: (DECL) every read of the packet that follows the declared-length checks has its extent entailed <= 4*(Header.Length+1), not merely <= len(rawPacket); (NOWRAP) every addition updating a loop-carried 16-bit cursor/counter of the decoder is proven not to wrap; (WIDTH) a w-byte slice is handed to RecvDelta.Unmarshal only under delta.Type == w and the cursor advances by w; (SCALE) deltas are 250*zext8 / 250*sext16(BigEndian); (CLIP) placeholders and the processed counter both use N = localMin(count-processed, runLength) and localMin is min. Chunking invariance and the one-to-one correspondence of deltas with statuses are run-time relations and are not decided (stated in the evidence).",
+  text="Decides structural clauses that are necessary for the property, for every input: (DECL) every read of the packet that follows the declared-length checks has its extent entailed <= 4*(Header.Length+1), not merely <= len(rawPacket); (NOWRAP) every addition updating a loop-carried 16-bit cursor/counter of the decoder is proven not to wrap; (WIDTH) a w-byte slice is handed to RecvDelta.Unmarshal only under delta.Type == w and the cursor advances by w; (SCALE) deltas are 250*zext8 / 250*sext16(BigEndian); (CLIP) placeholders and the processed counter both use N = localMin(count-processed, runLength) and localMin is min. Chunking invariance and the one-to-one correspondence of deltas with statuses are run-time relations and are not decided (stated in the evidence). SYM - every RecvDelta placeholder is created with a Type entailed within {1, 2}, i.e. only for status symbols that carry a delta, so the number of deltas cannot exceed the number of such symbols through a stray symbol value.",
   note="Trusted: go/ssa, checker/num, field-name anchors. Chunk bit extraction is C16's.",
   design="DESIGN.md §2 C13"),
 }
